@@ -154,6 +154,18 @@ class USubSub(USub):
   sub_marker = 'subsub'
 
 
+class UClassDefault(Exception):
+  """Class-level defaults that instances override (a common idiom: `code = 0` on the class, set per instance)."""
+  code = 0
+  retries = ()
+  hint = None
+
+  def __init__(self, msg, code):
+    super().__init__(msg)
+    self.code = code
+    self.retries = [1, 2]
+
+
 class UKwOnly(Exception):
   def __init__(self, *, code):
     super().__init__('code=%s' % code)
@@ -165,6 +177,7 @@ USER = {
     'USlots': lambda: USlots('m', ['d']), 'UStr': lambda: UStr('s', 1), 'UProp': lambda: UProp(21),
     'UBase': lambda: UBase('base', 1), 'USub': lambda: USub('sub', 2), 'USubSub': lambda: USubSub('subsub', 3),
     'UMulti': lambda: UMulti('key'), 'UOs': lambda: UOs(errno.EACCES, 'denied', '/x'), 'UKwOnly': lambda: UKwOnly(code=5),
+    'UClassDefault': lambda: UClassDefault('cd', 5),
 }
 
 
@@ -238,6 +251,8 @@ def attr_kind(orig, name):
   for base in type(orig).__mro__:
     if name in vars(base):
       d = vars(base)[name]
+      if name in getattr(orig, '__dict__', {}) and not hasattr(type(d), '__set__'):
+        return 'class_default_shadowed'
       if isinstance(d, property):
         return 'property'
       if isinstance(d, C_DESCR):
